@@ -16,6 +16,7 @@ Definition entries : list (Z * (list Z -> list Z)) :=
     (9, entry_unsub_documented_ok);
     (10, entry_strings_all);
     (11, entry_publish_both);
-    (12, entry_subscribe_both) ].
+    (12, entry_subscribe_both);
+    (13, entry_subscribe_connected) ].
 
 Extraction "model_validate.ml" entries.
